@@ -96,6 +96,75 @@ def const_assert_ok(prog, body, bb):
     return isinstance(c, tuple) and c[0] == "c" and isinstance(c[2], int) and bool(c[2]) == bool(t["expected"])
 
 
+def dominating_guard(b, bb, spec):
+    """spec = {"op": "Gt", "local": "n_digits", "const": "6", "edge": False}: the site block bb must be dominated by
+    the `edge` successor of a two-way switch on `<op>(<local>, <const>)` (the other successor must not dominate it),
+    i.e. the site is executed only when the comparison has that truth value.  Returns (ok, description)."""
+    dom = b.dominators()
+    found = []
+    for bl in b.blocks:
+        t = bl.term
+        if bl.cleanup or t["k"] != "switch" or t["discr"].get("k") not in ("move", "copy"):
+            continue
+        dl = t["discr"]["pl"]["l"]
+        # defining statement of the switch operand in this block
+        cmpst = None
+        copies = {}
+        for st in bl.stmts:
+            if st["k"] != "assign" or st["lhs"]["p"]:
+                continue
+            rv = st["rv"]
+            if rv["k"] == "use" and rv["op"].get("k") in ("copy", "move") and not rv["op"]["pl"]["p"]:
+                copies[st["lhs"]["l"]] = rv["op"]["pl"]["l"]
+            if st["lhs"]["l"] == dl and rv["k"] == "binop":
+                cmpst = rv
+        if not cmpst or cmpst["op"] != spec["op"]:
+            continue
+        a, c = cmpst["a"], cmpst["b"]
+        if a.get("k") not in ("copy", "move") or c.get("k") != "const" or str(c.get("int", c.get("bits"))) != str(spec["const"]):
+            continue
+        l = a["pl"]["l"]
+        while l in copies:
+            l = copies[l]
+        if b.local_name(l) != spec["local"]:
+            continue
+        # successor for truth value `edge`
+        cases = {str(v): tgt for v, tgt in t["cases"]}
+        want = cases.get("1" if spec["edge"] else "0", t["otherwise"])
+        other = [x for x in set(list(cases.values()) + [t["otherwise"]]) if x != want]
+        found.append((bl.idx, want, other))
+        if want in dom[bb] and not any(o in dom[bb] for o in other):
+            return True, f"dominated by the {'true' if spec['edge'] else 'false'} edge of `{spec['op']}({spec['local']}, {spec['const']})` (bb{bl.idx} -> bb{want})"
+    return False, f"no dominating {'true' if spec['edge'] else 'false'} edge of `{spec['op']}({spec['local']}, {spec['const']})` (candidates {found})"
+
+
+_premise_cache = {}
+
+
+def premise_failures(prog, own_pid, premises):
+    """Reviewed reasons may lean on obligations of another rule module ("<PID>:<rule prefix>").  Those are
+    re-evaluated here (once per module and process); failures that are listed known findings of that
+    property are not counted (they are reported there)."""
+    if not premises:
+        return []
+    import importlib, json, os
+    from framework import Result, load_known
+    out = []
+    for pr in premises:
+        pid, pref = pr.split(":", 1)
+        if pid == own_pid:
+            continue        # same module: the obligation is recorded (and fails) in this very run
+        ck = (prog.dir, pid)
+        if ck not in _premise_cache:
+            mod = importlib.import_module(pid)
+            r2 = Result(pid, "premise")
+            mod.run(prog, r2)
+            known = {k["key"] for k in load_known() if k.get("property") == pid and k.get("status") == "known"}
+            _premise_cache[ck] = [o for o in r2.obls if not o["ok"] and o["key"] not in known]
+        out += [o["key"] for o in _premise_cache[ck] if o["rule"].startswith(pref)]
+    return out
+
+
 def classify(prog, R, rule, fns, reviewed, skip=lambda s: False, auto=None):
     """Record one obligation per panic-capable site of `fns`:
     discharged (constant assert), reviewed (table entry, with frozen callers
@@ -130,6 +199,15 @@ def classify(prog, R, rule, fns, reviewed, skip=lambda s: False, auto=None):
             if sorted(want) != have:
                 R.ob(rule, key, False, s_["at"], f"reviewed under the call contexts {sorted(want)} but the function is now called from {have}: the reason must be re-confirmed")
                 continue
+        if e.get("guard"):
+            okg, whyg = dominating_guard(b, s_["bb"], e["guard"])
+            if not okg:
+                R.ob(rule, key, False, s_["at"], f"reviewed as safe because of a guard (`{e['reason'][:100]}…`) that is no longer in place: {whyg}")
+                continue
+        broken = premise_failures(prog, R.pid, e.get("premises"))
+        if broken:
+            R.ob(rule, key, False, s_["at"], f"reviewed as unreachable because of `{e['reason'][:120]}…`, but that premise no longer holds on this tree: {broken[:3]}")
+            continue
         R.reviewed(rule, key, s_["at"], e["reason"])
     # stale entries are reported in info (not failures)
     return n
